@@ -274,6 +274,8 @@ def hashable_atoms(kind):
         return st.integers(-5, 5).map(lambda i: ["int", str(i)])
     if kind == "str":
         return _text.map(lambda s: ["str", s])
+    if kind == "mixed":  # keys of mutually unorderable types
+        return st.one_of(hashable_atoms("int"), hashable_atoms("str"), hashable_atoms("bytes"))
     return st.binary(max_size=3).map(lambda b: ["bytes", b.hex()])
 
 
@@ -366,7 +368,7 @@ def values(max_leaves=12, with_arrays=True, with_funcs=True, with_files=False):
         leaves.append(files())
 
     def extend(children):
-        keyk = st.sampled_from(["int", "str"])
+        keyk = st.sampled_from(["int", "str", "str", "mixed"])
         dicts = keyk.flatmap(lambda k: st.lists(st.tuples(hashable_atoms(k), children).map(list),
                                                 max_size=4)).map(
             lambda items: ["dict", _uniq_keys(items)])
@@ -576,8 +578,7 @@ def _still_valid(spec):
             return False
         return all(_still_valid(e) for e in spec[1])
     if t == "dict":
-        ks = {k[0] for k, _ in spec[1]}
-        if len(ks) > 1:
+        if not all(k[0] in ("int", "str", "bytes") for k, _ in spec[1]):
             return False
         return all(_still_valid(v) for _, v in spec[1])
     if t in ("list", "tuple"):
